@@ -135,6 +135,8 @@ Definition has_shared_user (s : st) (d : nat) : bool :=
    as far as the pool still has them *)
 Definition need_of (t : tree) (s : st) (d : nat) : Z :=
   Z.max ((granted_sub t (gr_shared s) d + 999) / 1000) (if has_shared_user s d then 1 else 0).
+Definition spare_allb (t : tree) (s : st) (p : nat) (X : cset) : bool :=
+  forallb (fun d => negb (anc t p d) || (Z.min (need_of t s d) (csize (free_shar s d)) <=? csize (free_shar s d ∖ X))) (pools t).
 Definition spare_okb (t : tree) (s : st) (p : nat) (X : cset) : bool :=
   forallb (fun d => negb (anc t p d) || Nat.eqb d p ||
                     (Z.min (need_of t s d) (csize (free_shar s d)) <=? csize (free_shar s d ∖ X))) (pools t).
@@ -204,6 +206,12 @@ Definition ta_reserve (t : tree) (s : st) (cid : nat) (g : grant) : res st :=
     if negb (subseteqb iso (free_iso s p)) then Err (ErrGuard 6)
     else if negb (subseteqb ex (free_shar s p)) then Err (ErrGuard 7)
     else if alloc_shared t s p <? 1000 * csize ex + g_portion g then Err ErrNoCapacity
+    (* like an allocation, a reinstated grant leaves the pools it takes CPUs from (its own included) what they need
+       (shortWithout; the code tests the non-isolated part of the exclusive CPUs, which removes the same CPUs from
+       every sharable set of a well-formed tree) ... *)
+    else if negb (spare_allb t s p (g_excl g)) then Err (ErrGuard 13)
+    (* ... and needs a sharable CPU itself if its container runs on the shared ones *)
+    else if (bool_decide (g_excl g = ∅) || (0 <? g_portion g)) && bool_decide (free_shar s p ∖ g_excl g = ∅) then Err (ErrGuard 14)
     else
       let s1 := account_alloc t s p (g_excl g) in
       Ok (set_grants (add_shared s1 p (g_portion g)) (<[cid := g]> (grants s1)))
